@@ -19,6 +19,14 @@ def by_product_jobs(tier):
                 mods = [(tuple(rules), (), 'start', None, (), False, 'named', None)]
                 yield {'mods': mods, 'inputs': 'ab\\n:5', 'mode': 'outcome', 'positions': 'all',
                        'fullparse': (True,), 'tag': 'multiline', 'post': 'errpos'}
+    # (1b) blanks that the grammar does not ignore: they are the first unmatchable character
+    for n in range(0, 2):
+        for e in c01.gen(n, [('str', 'a'), ('str', 'ab'), ('re', 'a+'), ('ref', 'Rab'), ('sep', ('re', '[ab]+'), ('str', ','), True, False, True, False)]):
+            if c01.wellformed(e, aux):
+                rules = [('start', ('rule', None, e))] + c01.AUX
+                mods = [(tuple(rules), (), 'start', None, (), False, 'named', None)]
+                yield {'mods': mods, 'inputs': 'ab\\s,:5', 'mode': 'outcome', 'positions': 'all',
+                       'fullparse': (True,), 'tag': 'blanks', 'post': 'errpos'}
     # (2) the same in bytes mode, <=1 operator
     bl = [('str', 'a'), ('str', 'ab'), ('byte', 0x0a), ('re', 'a+'), ('ref', 'Rab')]
     for n in range(0, 2):
@@ -54,13 +62,16 @@ def by_product_jobs(tier):
 
 # --- the excerpt grid -----------------------------------------------------------------
 GRID_GRAMMARS = {
-    'E': 'start = [/[xy\\n\ufeff]*/, "!"]',      # ParseError at the offending character
-    'P': 'start = /[xy\\n\ufeff]*/',            # PartialParseError at the offending character
+    'E': 'start = [/[^?\\r]*/, "!"]',      # ParseError at the offending character
+    'P': 'start = /[^?\\r]*/',            # PartialParseError at the offending character
     'BE': 'start = [b/[xy\\n]*/, b"!"]',
     'BP': 'start = b/[xy\\n]*/',
 }
 # (a byte-order mark at the start of the text is an ordinary character for sourcer)
 PRE = ['', '\n', 'xx\n', 'x' * 100 + '\n', 'x\n\n', '\ufeff', '\ufeffxx\n']
+# characters placed on the error line BEFORE the offending character: none of them is a line break for sourcer, each counts
+# as one column and one excerpt character
+INLINE = ['\x0c', '\u2028', '\x85', '\t', '\xa0', '\x00', '\x1b', '\u200b', '\x1c']
 OFFENDING = ['?', '\r']          # '\r' is not a line break for sourcer: also as CR of a CRLF line end
 SUF = ['', '\n', '\nyyy', '\n' + 'y' * 100]
 
@@ -128,11 +139,16 @@ def grid_job(L, mods):
               for off in OFFENDING:
                 if off != '?' and (c not in (0, L - 1, L // 2) or suf == ''):
                     continue            # the CR variant: at the start, in the middle and as CR of a CRLF line end
-                text = pre + 'x' * c + off + 'y' * (L - c - 1) + suf
+                line = 'x' * c
+                if off == '?' and c >= 2 and (c == L - 1 or c == L // 2):
+                    # (one special character in the middle of what precedes the error on its line)
+                    sp = INLINE[(L + c) % len(INLINE)]
+                    line = line[:c // 2] + sp + line[c // 2 + 1:]
+                text = pre + line + off + 'y' * (L - c - 1) + suf
                 idx = len(pre) + c
                 for gk in ('E', 'P', 'BE', 'BP'):
                     is_b = gk.startswith('B')
-                    if is_b and (pre not in ('', 'xx\n') or suf not in ('', '\nyyy') or off != '?'):
+                    if is_b and (pre not in ('', 'xx\n') or suf not in ('', '\nyyy') or off != '?' or line != 'x' * c):
                         continue
                     t = text.encode() if is_b else text
                     why = check_text(mods[gk], t, idx, is_b, off)
